@@ -41,8 +41,11 @@ Create(a) ==
 \* how the namespace part of the presented DID relates to the handler's namespace "did:ion"
 NsRels == {"same", "extended", "truncated", "other_method", "method_prefix_only", "upper_case", "no_did_scheme"}
 \* how the initial state is spelled
+\* ("typeless": the canonical request WITHOUT its type member - the long-form format of the Sidetree specification;
+\* the statement does not say whether it resolves: Decided.  If it does, the document's id is the DID asked for)
 Encodings == {"canonical", "whitespace", "member_order", "padded", "trailing_bits", "tampered_char",
-              "not_base64url", "other_request", "update_request", "empty"}
+              "not_base64url", "other_request", "update_request", "empty", "typeless"}
+Decided(p) == ~(p.enc = "typeless" /\ p.ns = "same" /\ p.sfx = "matching" /\ p.form = "long")
 SuffixRels == {"matching", "other", "empty", "prefixed", "suffixed", "doubled"}
 Forms == {"long", "short"}
 
